@@ -442,6 +442,7 @@ def build_descs(ctx):
     for n in (1, 2, 3):
         for es in graphs.all_digraphs(n, loops=True):
             add_square(weighted(rng, n, es, False, mode=rng.choice(['ones', 'ones', 'frac', 'int', 'bool'])),
+                       roots=2 if (quick and n == 3 and rng.random() < 0.5) else 'all',
                        kind='digraph%d' % n, unsort=0.33 if n == 3 else 0.0)
     g4 = list(graphs.all_digraphs(4))
     if quick:
@@ -458,7 +459,7 @@ def build_descs(ctx):
     for n in (2, 3, 4):
         gs = list(graphs.all_undirected(n, loops=True))
         if quick and n == 4:
-            gs = rng.sample(gs, 230)
+            gs = rng.sample(gs, 180)
         for es in gs:
             add_square(weighted(rng, n, es, True), roots=2 if (quick and n == 4) else 'all', kind='undirected%d' % n,
                        unsort=0.33 if n >= 3 else 0.0)
@@ -483,7 +484,7 @@ def build_descs(ctx):
         for es in rng.sample(g6, 1500):
             add_square(weighted(rng, 6, es, True), roots=2, kind='undirected6', unsort=0.33)
     # structured random graphs
-    for name, n, es, _ in graphs.suite(rng, 70 if quick else 600, 3, 12):
+    for name, n, es, _ in graphs.suite(rng, 60 if quick else 600, 3, 12):
         kind = name.rstrip('0123456789')
         a = weighted(rng, n, es, kind in graphs.UNDIRECTED_KINDS)
         add_square(a, roots=2, kind='structured:' + kind, unsort=0.5)
